@@ -63,46 +63,64 @@ def make_formulas(ns, ps):
 
     def run(eng, acc):
         from skchange.anomaly_detectors import CAPA, CircularBinarySegmentation
+        from skchange.anomaly_scores import to_local_anomaly_score
         from skchange.change_detectors import PELT, MovingWindow, SeededBinarySegmentation
+        from skchange.change_scores import to_change_score
+        from skchange.costs import GaussianVarCost
         S = SymReal(s)
+
+        def fitted(mk, X, inf):
+            """fit must run for every scale >= 0 (incl. exactly 0); a crash on some path is a failed obligation with the
+            path's model, not a crash of the harness"""
+            try:
+                return mk().fit(X)
+            except Exception as ex:
+                acc.concrete("formula.fit_runs_for_every_scale", False, dict(inf, exception=f"{type(ex).__name__}: {ex}"[:160]), eng=eng)
+                return None
+
         for n in ns:
             for p in ps:
                 X = pd.DataFrame(np.zeros((n, p)))
                 info = dict(n=n, p=p, part="formula")
                 ln = math.log(n)
-                d = PELT(penalty_scale=S, min_segment_length=1).fit(X)
-                acc.oblige(eng, "PELT.penalty_is_scale_times_2plogn", approx_eq(rv(d.penalty_), s, 2 * p * ln), dict(info, det="PELT"))
-                d = SeededBinarySegmentation(threshold_scale=S, min_segment_length=1).fit(X)
-                acc.oblige(eng, "SBS.threshold_is_scale_times_2p_sqrt_logn", approx_eq(rv(d.threshold_), s, 2 * p * math.sqrt(ln)), dict(info, det="SBS"))
+                d = fitted(lambda: PELT(penalty_scale=S, min_segment_length=1), X, dict(info, det="PELT"))
+                if d is not None:
+                    acc.oblige(eng, "PELT.penalty_is_scale_times_2plogn", approx_eq(rv(d.penalty_), s, 2 * p * ln), dict(info, det="PELT"))
+                d = fitted(lambda: SeededBinarySegmentation(threshold_scale=S, min_segment_length=1), X, dict(info, det="SBS"))
+                if d is not None:
+                    acc.oblige(eng, "SBS.threshold_is_scale_times_2p_sqrt_logn", approx_eq(rv(d.threshold_), s, 2 * p * math.sqrt(ln)), dict(info, det="SBS"))
                 # the defaults are functions of the *shape of the training data*, whatever the scorer's parameter count
-                from skchange.anomaly_scores import to_local_anomaly_score
-                from skchange.change_scores import to_change_score
-                from skchange.costs import GaussianVarCost
-                d = PELT(cost=GaussianVarCost(), penalty_scale=S, min_segment_length=1).fit(X)
-                acc.oblige(eng, "PELT.penalty_is_scale_times_2plogn", approx_eq(rv(d.penalty_), s, 2 * p * ln),
-                           dict(info, det="PELT", cost="GaussianVarCost"))
-                d = SeededBinarySegmentation(to_change_score(GaussianVarCost()), threshold_scale=S, min_segment_length=1).fit(X)
-                acc.oblige(eng, "SBS.threshold_is_scale_times_2p_sqrt_logn", approx_eq(rv(d.threshold_), s, 2 * p * math.sqrt(ln)),
+                d = fitted(lambda: PELT(cost=GaussianVarCost(), penalty_scale=S, min_segment_length=1), X, dict(info, det="PELT", cost="GaussianVarCost"))
+                if d is not None:
+                    acc.oblige(eng, "PELT.penalty_is_scale_times_2plogn", approx_eq(rv(d.penalty_), s, 2 * p * ln),
+                               dict(info, det="PELT", cost="GaussianVarCost"))
+                d = fitted(lambda: SeededBinarySegmentation(to_change_score(GaussianVarCost()), threshold_scale=S, min_segment_length=1), X,
                            dict(info, det="SBS", score="GaussianVarCost"))
-                d = CircularBinarySegmentation(to_local_anomaly_score(GaussianVarCost()), threshold_scale=S, min_segment_length=1,
-                                               max_interval_length=7).fit(X)
+                if d is not None:
+                    acc.oblige(eng, "SBS.threshold_is_scale_times_2p_sqrt_logn", approx_eq(rv(d.threshold_), s, 2 * p * math.sqrt(ln)),
+                               dict(info, det="SBS", score="GaussianVarCost"))
+                d = fitted(lambda: CircularBinarySegmentation(to_local_anomaly_score(GaussianVarCost()), threshold_scale=S, min_segment_length=1,
+                                                              max_interval_length=7), X, dict(info, det="CBS", M=7, score="GaussianVarCost"))
                 with proxy.native():
                     want = CircularBinarySegmentation.get_default_threshold(n, p, 7)
-                acc.oblige(eng, "CBS.threshold_is_scale_times_published_default", approx_eq(rv(d.threshold_), s, want),
-                           dict(info, det="CBS", M=7, score="GaussianVarCost"))
+                if d is not None:
+                    acc.oblige(eng, "CBS.threshold_is_scale_times_published_default", approx_eq(rv(d.threshold_), s, want),
+                               dict(info, det="CBS", M=7, score="GaussianVarCost"))
                 if n >= 4:
-                    d = MovingWindow(to_change_score(GaussianVarCost()), bandwidth=2, threshold_scale=S, level=0.2).fit(X)
+                    d = fitted(lambda: MovingWindow(to_change_score(GaussianVarCost()), bandwidth=2, threshold_scale=S, level=0.2), X,
+                               dict(info, det="MovingWindow", b=2, level=0.2, score="GaussianVarCost"))
                     with proxy.native():
                         want = MovingWindow.get_default_threshold(n, p, 2, 0.2)
-                    if math.isfinite(want):
+                    if d is not None and math.isfinite(want):
                         acc.oblige(eng, "MovingWindow.threshold_is_scale_times_published_default",
                                    approx_eq(rv(d.threshold_), s, want), dict(info, det="MovingWindow", b=2, level=0.2, score="GaussianVarCost"))
                 for k_per in (1, 2):
-                    d = CAPA(TableSaving(p=p, n_params=k_per), TableSaving(p=p, tag="P"), collective_penalty_scale=S,
-                             point_penalty_scale=S, min_segment_length=2, max_segment_length=5)
                     if n >= 2:
-                        d.fit(X)
                         k = k_per * p
+                        d = fitted(lambda: CAPA(TableSaving(p=p, n_params=k_per), TableSaving(p=p, tag="P"), collective_penalty_scale=S,
+                                                point_penalty_scale=S, min_segment_length=2, max_segment_length=5), X, dict(info, det="CAPA", k=k))
+                        if d is None:
+                            continue
                         acc.oblige(eng, "CAPA.collective_penalty_is_scale_times_k_2sqrt_klogn_2logn",
                                    approx_eq(rv(d.collective_penalty_), s, k + 2 * math.sqrt(k * ln) + 2 * ln), dict(info, det="CAPA", k=k))
                         one = CAPA(TableSaving(p=p, n_params=k_per), TableSaving(p=p, tag="P"), collective_penalty_scale=1.0,
@@ -112,18 +130,19 @@ def make_formulas(ns, ps):
                 for b in (1, 2, 5):
                     if n >= 2 * b and n > b:
                         for level in (0.01, 0.2):
-                            d = MovingWindow(bandwidth=b, threshold_scale=S, level=level).fit(X)
+                            d = fitted(lambda: MovingWindow(bandwidth=b, threshold_scale=S, level=level), X, dict(info, det="MovingWindow", b=b, level=level))
                             with proxy.native():
                                 want = MovingWindow.get_default_threshold(n, p, b, level)
-                            if math.isfinite(want):
+                            if d is not None and math.isfinite(want):
                                 acc.oblige(eng, "MovingWindow.threshold_is_scale_times_published_default",
                                            approx_eq(rv(d.threshold_), s, want), dict(info, det="MovingWindow", b=b, level=level))
                 for M in (2, 7, 1000):
-                    d = CircularBinarySegmentation(threshold_scale=S, min_segment_length=1, max_interval_length=M).fit(X)
+                    d = fitted(lambda: CircularBinarySegmentation(threshold_scale=S, min_segment_length=1, max_interval_length=M), X, dict(info, det="CBS", M=M))
                     with proxy.native():
                         want = CircularBinarySegmentation.get_default_threshold(n, p, M)
-                    acc.oblige(eng, "CBS.threshold_is_scale_times_published_default", approx_eq(rv(d.threshold_), s, want),
-                               dict(info, det="CBS", M=M))
+                    if d is not None:
+                        acc.oblige(eng, "CBS.threshold_is_scale_times_published_default", approx_eq(rv(d.threshold_), s, want),
+                                   dict(info, det="CBS", M=M))
                     acc.oblige(eng, "CBS.published_default_is_2p_log_nM", approx_eq(z3.RealVal(Fraction(float(want))), z3.RealVal(1), 2 * p * math.log(n * M)),
                                dict(info, det="CBS", M=M))
         acc.sample(dict(part="formula", ns=list(ns), ps=list(ps)))
@@ -320,8 +339,19 @@ def replay(cx):
         n, p, det = info["n"], info["p"], info["det"]
         X = pd.DataFrame(np.zeros((n, p)))
         ln = math.log(n)
-        scale = scale if scale > 0 else 2.0
+        scale = scale if (scale > 0 or "scale" in model) else 2.0       # the model's scale, including exactly 0
         gauss = "cost" in info or "score" in info     # the run with a two-parameters-per-variable scorer
+        try:
+            return _replay_formula(info, ob, key, scale, gauss, n, p, det, X, ln)
+        except Exception as ex:
+            return dict(reproduced=True, key=f"{key}|{type(ex).__name__}", what=f"{det} fitted on shape ({n},{p}) with scale {scale} raised {type(ex).__name__}: {ex}"[:400])
+    return _replay_rest(cx, info, model, ob, part, key)
+
+
+def _replay_formula(info, ob, key, scale, gauss, n, p, det, X, ln):
+    from skchange.anomaly_detectors import CAPA, CircularBinarySegmentation
+    from skchange.change_detectors import PELT, MovingWindow, SeededBinarySegmentation
+    if True:
         with proxy.native():
             from skchange.anomaly_scores import to_local_anomaly_score
             from skchange.change_scores import to_change_score
@@ -355,6 +385,9 @@ def replay(cx):
                 want = scale * (2 * p * math.log(n * M) if "2p_log" in ob else CircularBinarySegmentation.get_default_threshold(n, p, M))
         bad = not math.isclose(float(got), float(want), rel_tol=1e-9, abs_tol=1e-12)
         return dict(reproduced=bad, key=key, what=f"{det} fitted on shape ({n},{p}) with scale {scale}: value {got}, documented formula gives {want}")
+
+
+def _replay_rest(cx, info, model, ob, part, key):
     if part == "pelt_monotone":
         from skchange.change_detectors import PELT
         n, m = info["n"], info["m"]
